@@ -214,18 +214,28 @@ def r23_table_rw(ctx):
                                 removed.add(c.comparators[0].value)
     # keys re-added as constructor keywords
     is_year_list = None
+    tested = {U(g.test) for g in walk_no_nested(cf.node)
+              if isinstance(g, ast.If) and isinstance(g.test, ast.Name)}
+    cands = []
     for n in walk_no_nested(cf.node):
-        if isinstance(n, ast.For) and isinstance(n.iter, ast.List) and any(
+        if isinstance(n, ast.For) and any(
                 isinstance(x, ast.Assign) and isinstance(
-                    x.targets[0], ast.Name) and U(x.value) == "True" and any(
-                        isinstance(g, ast.If) and U(g.test) ==
-                        x.targets[0].id for g in walk_no_nested(cf.node))
-                for x in ast.walk(n)):
-            try:
-                is_year_list = set(ctx.folder.fold(n.iter, cf.module, None,
-                                                   {}))
-            except NotConst:
-                pass
+                    x.targets[0], ast.Name) and U(x.value) == "True" and
+                x.targets[0].id in tested for x in ast.walk(n)):
+            cands.append(n.iter)
+        elif isinstance(n, ast.Assign) and isinstance(
+                n.targets[0], ast.Name) and n.targets[0].id in tested:
+            for c in ast.walk(n.value):
+                for g in getattr(c, "generators", ()):
+                    cands.append(g.iter)
+    for it in cands:
+        try:
+            vals = ctx.folder.fold(it, cf.module, cf.cls, {})
+        except NotConst:
+            continue
+        if isinstance(vals, (list, tuple, set, frozenset)) and vals and all(
+                isinstance(v, str) for v in vals):
+            is_year_list = set(vals)
     P7 = ("C07", "C09", "C20")
     for g in sorted(produced):
         rep.anchor(rule, "producible keys")
